@@ -90,7 +90,7 @@ theorem C16_marginal (lv : List (Name × Nat)) (r : BRxn) (lm : List Nat)
     (hm : MassAction lv r)
     (hpm : PermMap (max (nSub lv r) (nProd lv r)) lm) (σ : LName → Rat)
     (hC : ∀ c ∈ subsOf r, labelsOf lv c > 0 → totalOf σ c (labelsOf lv c) ≠ 0)
-    (C : Name → Rat) (x : Name) (i : Nat) :
+    (C : Name → Rat) (x : Name) (i : Nat) (_hCx : C x ≠ 0) :
     linRhs lrs (enrichOf lv σ) (fun _ => r.rate (totalsEnv lv σ)) C (Slot.pos x i)
       = (1 / C x) * ((labelledAt x (labelsOf lv x) i).map (rhsOf rs σ)).sum := by
   rw [linRxnsOf_eq lv r lm baseRxns hlk hlab, if_neg (by rw [hpm.length]; omega)] at hlin
@@ -99,6 +99,29 @@ theorem C16_marginal (lv : List (Name × Nat)) (r : BRxn) (lm : List Nat)
   simp only [Except.map, Except.ok.injEq] at hlin
   subst hlin
   exact marginal_full hiso hm hpm σ hC C x i
+
+/-- **without `PermMap` the identity is false of the code (finding F-C16-3).**  Both mappers accept any map of the
+    padded length with indices in range (`C16_same_direction`, `C05_builds_iff`), permutation or not.  A → B, two
+    positions each, rate `k·A`, map `[0, 0]`, A⁰¹ = A⁰⁰ = 1, B⁰⁰ = 2, pools 2: position `(A, 1)` is never drained in
+    the linear model (derivative 0; position 0 is paired twice) while the isotopomer model drains it (−1/2) -/
+theorem C16_marginal_fails_without_perm :
+    ∃ (lv : List (Name × Nat)) (r : BRxn) (lm : List Nat) (rs : List LRxn) (lrs : List LinRxn)
+      (σ : LName → Rat) (C : Name → Rat),
+      isotopomerReactions lv r lm = .ok rs ∧
+      linRxnsOf (isosOf lv) [(r.name, r.stoich)] r.name lm = .ok lrs ∧
+      ¬ PermMap (max (nSub lv r) (nProd lv r)) lm ∧ C "A" ≠ 0 ∧
+      linRhs lrs (enrichOf lv σ) (fun _ => r.rate (totalsEnv lv σ)) C (Slot.pos "A" 1) = 0 ∧
+      (1 / C "A") * ((labelledAt "A" (labelsOf lv "A") 1).map (rhsOf rs σ)).sum = -1/2 := by
+  refine ⟨[("A", 2), ("B", 2)],
+    { name := "v", fn := listProd, args := ["k", "A"], stoich := [("A", -1), ("B", 1)] },
+    [0, 0], _, _,
+    (fun n => if n = ⟨"A", some [false, true]⟩ then 1
+      else if n = ⟨"A", some [false, false]⟩ then 1
+      else if n = ⟨"B", some [false, false]⟩ then 2
+      else if n = plain "k" then 1 else 0),
+    (fun _ => 2), rfl, rfl, by decide, by decide, ?_, ?_⟩
+  · decide +kernel
+  · decide +kernel
 
 /-- the statement on the former witness of F-C16-1 (kernel-checked): A → B, three positions each,
     rate `k·A`, the 3-cycle `[2, 0, 1]`, half of the A pool labelled at position 0 only; position 2
@@ -221,7 +244,7 @@ theorem C16_model_marginal {b : Base} {lv : List (Name × Nat)} {maps : List (Na
     (hnd : (b.rxns.map (·.name)).Nodup) (hkd : (maps.map (·.1)).Nodup)
     (hall : ∀ r ∈ b.rxns, LinOk lv maps r)
     (σ : LName → Rat) (hC : ∀ c, labelsOf lv c > 0 → totalOf σ c (labelsOf lv c) ≠ 0)
-    (C : Name → Rat) (x : Name) (i : Nat) :
+    (C : Name → Rat) (x : Name) (i : Nat) (_hCx : C x ≠ 0) :
     linRhs lmod.rxns (enrichOf lv σ) (fluxAtTotals b lv σ) C (Slot.pos x i)
       = (1 / C x) * ((labelledAt x (labelsOf lv x) i).map (rhsOf m.rxns σ)).sum :=
   model_marginal hiso hlin hnd hkd hall σ hC C x i
